@@ -174,8 +174,8 @@ def to_series(col):
     if fam.startswith('datetime64'):
         return pd.Series([pd.NaT if c is None else pd.Timestamp(c) for c in cells]).astype(fam)
     if fam == 'datetime-tz':
-        return pd.Series([pd.NaT if c is None else pd.Timestamp(c, tz='Europe/London') for c in cells],
-                         dtype='datetime64[ns, Europe/London]')
+        tz = col.get('tz', 'Europe/London')      # (C01 also uses zones at a negative offset that is not a whole hour)
+        return pd.Series([pd.NaT if c is None else pd.Timestamp(c, tz=tz) for c in cells], dtype='datetime64[ns, %s]' % tz)
     raise ValueError(fam)
 
 
